@@ -688,7 +688,7 @@ func c10(c *core.Ctx, r *core.Report) {
 				r.Check(okk, core.FuncName(fn)+"#cursor="+d, an.Pos(c, in), "cursor store "+d, "the stage cursor is set to "+d+": it can move backwards or skip stages")
 			})
 		}
-		r.Floor("stores to the stage cursor", n, 2)
+		r.Floor("stores to the stage cursor", n, 1)
 		past := 0
 		for _, ret := range an.Returns(rate) {
 			for _, g := range an.GuardsOf(ret.Block()) {
